@@ -12,3 +12,14 @@ class AnalysisError(Exception):
     understood, unresolved call in a function a rule depends on ...).
     Reported as ``ANALYSIS-ERROR`` with exit code 2 - never as a violation and
     never as a silent pass."""
+
+
+class StructuralViolation(AnalysisError):
+    """A construct every rule of a property is built on was replaced by something that itself breaks the property
+    (e.g. the payload cut of a response made to depend on unchecked response bytes).  For the properties named in
+    *pids* this is reported as a violation of rule ``<pid>.R0`` at *where*; for every other property it stays what
+    its base class says: the analysis cannot give a verdict."""
+
+    def __init__(self, pids, key: str, where: str, rule_text: str, msg: str):
+        super().__init__(msg)
+        self.pids, self.key, self.where, self.rule_text, self.msg = set(pids), key, where, rule_text, msg
